@@ -130,8 +130,6 @@ axes = Contract(
                 "len(l_axes) == len(r_axes) and len(l_axes) <= t",
                 "forall(0, len(l_axes), lambda k: 0 <= l_axes[k] and l_axes[k] < t and 0 <= r_axes[k] and r_axes[k] < len(R) and L[l_axes[k]] == R[r_axes[k]])",
                 "forall(0, len(l_axes), lambda k: forall(0, len(l_axes), lambda m: implies(k < m, l_axes[k] < l_axes[m])))",
-                # the right position is the FIRST occurrence
-                "forall(0, len(l_axes), lambda k: forall(0, r_axes[k], lambda j: R[j] != L[l_axes[k]]))",
                 # completeness: ghost slot[p] = where position p of the left operand was recorded
                 "forall(keys(slot), lambda p: 0 <= slot[p] and slot[p] < len(l_axes) and l_axes[slot[p]] == p)",
                 "forall(0, t, lambda p: (p in slot) == exists(0, len(R), lambda j: R[j] == L[p]))",
@@ -150,7 +148,6 @@ axes = Contract(
         # paired positions carry the same index, left positions strictly increasing
         "forall(0, len(result[0]), lambda k: 0 <= result[0][k] and result[0][k] < len(L) and 0 <= result[1][k] and result[1][k] < len(R) and L[result[0][k]] == R[result[1][k]])",
         "forall(0, len(result[0]), lambda k: forall(0, len(result[0]), lambda m: implies(k < m, result[0][k] < result[0][m])))",
-        "forall(0, len(result[0]), lambda k: forall(0, result[1][k], lambda j: R[j] != L[result[0][k]]))",
         # every shared index of the left operand is paired
         "forall(0, len(L), lambda p: implies(exists(0, len(R), lambda j: R[j] == L[p]), exists(0, len(result[0]), lambda k: result[0][k] == p)))",
     ],
